@@ -66,6 +66,8 @@ pub enum ModelEvaluatorError {
   DecisionTableWithoutOutputClause,
   #[error("rule {0} of the decision table must have {1} input entries and {2} output entries")]
   InvalidNumberOfRuleEntries(usize, usize, usize),
+  #[error("requirements of the element with identifier `{0}` form a cycle")]
+  CyclicRequirements(String),
   #[error("read lock failed with reason '{0}'")]
   ReadLockFailed(String),
   #[error("write lock failed with reason '{0}'")]
@@ -136,6 +138,10 @@ pub fn err_decision_table_without_output_clause() -> DmntkError {
 
 pub fn err_invalid_number_of_rule_entries(rule: usize, inputs: usize, outputs: usize) -> DmntkError {
   ModelEvaluatorError::InvalidNumberOfRuleEntries(rule, inputs, outputs).into()
+}
+
+pub fn err_cyclic_requirements(id: &str) -> DmntkError {
+  ModelEvaluatorError::CyclicRequirements(id.to_string()).into()
 }
 
 pub fn err_read_lock_failed(reason: impl ToString) -> DmntkError {
